@@ -5,6 +5,8 @@
 // replaying counterexamples and for the engine self-check.
 package vsym
 
+import "context"
+
 func Uint64(name string) uint64
 func Int64(name string) int64
 func Uint32(name string) uint32
@@ -115,3 +117,7 @@ func ForkGoroutineOrder(on bool)
 func Rec(key string) string
 
 func ModelOpensKeepLockGuard() bool
+
+// Invoke delivers a request to the serving gRPC server of the model as the transport would after the
+// handshake: through the server's interceptor chain to the registered service method ("/v1.Signer/Sign").
+func Invoke(fullMethod string, ctx context.Context, req any) (any, error)
